@@ -34,7 +34,9 @@ EXTENDS Naturals, Sequences, FiniteSets, TLC
 
 CONSTANTS MaxPrefix,      \* well-formed entries before the malformed item (0..MaxPrefix)
           MaxTrail,       \* well-formed entries after it (0..MaxTrail)
-          Variant         \* "ok" | negative controls: "swallow", "loseprefix", "spin"
+          Variant,        \* "ok" | negative controls: "swallow", "loseprefix", "spin"
+          ReqTokens,      \* step tokens of enumerated scenario request lists (subset of AllReqTokens)
+          MaxReqLen       \* request lists of 0..MaxReqLen steps
 
 VARIABLES cs,             \* the case (constant during a behaviour)
           st              \* reader state
@@ -53,16 +55,28 @@ Formats     == HttpFormats \cup {"grpcjson"}
 Modes(f) == IF f = "grpcjson" THEN {"stream", "continue"} ELSE {"stream", "preload", "continue"}
 
 SizeClasses   == {"truncated", "negsize", "absurdsize", "nonnumsize"}
+\* boundary values of the size field (raw, uripost).  The readers allocate what the size says up to 1 MiB and
+\* read larger entries incrementally, so both sides of that threshold are classes of their own:
+\*   big_m1 / big_eq / big_p1 : a COMPLETE entry of 1 MiB-1 / 1 MiB / 1 MiB+1 bytes  (well-formed: delivered)
+\*   trunc1                   : size = bytes left + 1                                  (rejected)
+\*   mib_trunc                : size = 1 MiB exactly, a few bytes left                 (rejected)
+\*   big_trunc1               : size = 1 MiB+1, 1 MiB left                             (rejected)
+\*   big_trunc                : size = 2 MiB, 38 bytes left                            (rejected)
+\*   size0                    : uripost entry with size 0 and no body                  (well-formed: delivered)
+BigOkClasses  == {"big_m1", "big_eq", "big_p1"}
+EofClasses    == {"trunc1", "mib_trunc", "big_trunc1", "big_trunc"}     \* the item is the end of the file
 HeaderClasses == {"hdr_nocolon", "hdr_nobracket", "hdr_emptykey"}
 JsonClasses   == {"badjson", "shape_array", "shape_type", "shape_scalar"}
 FieldClasses  == {"nouri", "badurl", "badmethod"}
 \* the FILE is well-formed, the `headers` option of the provider config is not (util.DecodeHTTPConfigHeaders)
 CfgClasses    == {"cfghdr_nocolon", "cfghdr_nobracket", "cfghdr_emptykey"}
 AmmoClasses   == {"none", "longline", "nullvalue", "badrequest"} \cup SizeClasses \cup HeaderClasses \cup JsonClasses \cup FieldClasses \cup CfgClasses
+                 \cup BigOkClasses \cup EofClasses \cup {"size0"}
 
 Applies(f, c) ==
     CASE c = "none"          -> TRUE
-      [] c \in SizeClasses   -> f \in {"uripost", "raw"}
+      [] c \in SizeClasses \cup BigOkClasses \cup EofClasses -> f \in {"uripost", "raw"}
+      [] c = "size0"         -> f = "uripost"
       [] c \in HeaderClasses -> f \in {"uri", "uripost"}
       [] c \in JsonClasses   -> f \in {"jsonline", "jsonarray", "grpcjson"}
       [] c = "nullvalue"     -> f \in {"jsonline", "jsonarray", "grpcjson"}
@@ -84,6 +98,7 @@ HasLineLimit(f) == f \in {"uri", "grpcjson"}
 \*   "either"  - the statement does not say (a JSON null decodes to an empty entry); accept or reject
 Verdict(f, c) ==
     CASE c = "none"      -> "deliver"
+      [] c \in BigOkClasses \cup {"size0"} -> "deliver"
       [] c = "longline"  -> IF HasLineLimit(f) THEN "reject" ELSE "deliver"
       [] c = "nullvalue" -> "either"
       [] OTHER           -> "reject"
@@ -169,21 +184,94 @@ LastStage(t) == IF t = "config" THEN 1 ELSE 4
 (* The case space *)
 
 AmmoCases ==
-    { [kind |-> "ammo", format |-> f, mode |-> m, np |-> np, cls |-> c, nt |-> nt] :
+    { [kind |-> "ammo", format |-> f, mode |-> m, np |-> np, cls |-> c, nt |-> nt, arg |-> <<>>] :
         f \in Formats, m \in Modes("uri") \cup Modes("grpcjson"), np \in 0..MaxPrefix, c \in AmmoClasses, nt \in 0..MaxTrail }
 
 AmmoCaseOK(c) ==
     /\ c.mode \in Modes(c.format)
     /\ Applies(c.format, c.cls)
     /\ (c.cls = "none" => c.np + c.nt > 0)          \* the empty file is C08's subject
+    /\ (c.cls \in EofClasses => c.nt = 0)
 
 DescCases ==
-    { [kind |-> "desc", format |-> t, mode |-> "-", np |-> 0, cls |-> c, nt |-> 0] :
+    { [kind |-> "desc", format |-> t, mode |-> "-", np |-> 0, cls |-> c, nt |-> 0, arg |-> <<>>] :
         t \in DescTargets, c \in DescClasses }
 
 DescCaseOK(c) == c.format \in DescTable[c.cls].t
 
-Cases == {c \in AmmoCases : AmmoCaseOK(c)} \cup {c \in DescCases : DescCaseOK(c)}
+(* Parameterised description families: the case carries its parameters in `arg`, the verdict is computed. *)
+
+\* (a) scenario request lists.  arg = the list of step tokens; every request step is the self-contained
+\*     `auth_req`.  convertScenarioToAmmo walks the list: a request step appends max(count,0) requests, a
+\*     sleep step adds to the LAST appended request - so it needs one (what is IN FRONT of a sleep matters,
+\*     not its position) -, a step that does not parse is an error.
+AllReqTokens == {"R1", "Rdef", "Rsl", "R0", "Rneg", "Rbig", "Rbad", "Rhuge",
+                 "S", "S0", "Sneg", "Sempty", "Sbad", "Shuge"}
+SleepTokens  == {"S", "S0", "Sneg", "Sempty"}           \* sleep(100) sleep(0) sleep(-1) sleep()
+BadTokens    == {"Rbad", "Rhuge", "Sbad", "Shuge"}      \* auth_req(x) auth_req(10^20) sleep(abc) sleep(10^20)
+Unpinned     == {"Rneg", "Sneg"}                        \* negative count / negative sleep: the statement does not say
+ReqCount(t)  == CASE t \in {"R1", "Rdef", "Rsl"} -> 1 [] t = "Rbig" -> 50 [] OTHER -> 0
+
+RECURSIVE RLRejects(_, _, _)
+RLRejects(l, i, n) ==
+    IF i > Len(l) THEN FALSE
+    ELSE IF l[i] \in BadTokens THEN TRUE
+    ELSE IF l[i] \in SleepTokens THEN (IF n = 0 THEN TRUE ELSE RLRejects(l, i + 1, n))
+    ELSE RLRejects(l, i + 1, n + ReqCount(l[i]))
+
+ReqLists == UNION { [1..n -> ReqTokens] : n \in 0..MaxReqLen }
+ReqListVerdict(l) == IF RLRejects(l, 1, 0) THEN "reject"
+                     ELSE IF \E i \in 1..Len(l) : l[i] \in Unpinned THEN "either" ELSE "deliver"
+
+\* (b) literal indexes into a data source of 1..3 rows, in a preprocessor mapping ("map") and as an argument of
+\*     a template function ("func").  arg = <<rows, index token, where>>.  An index inside 0..rows-1 is
+\*     well-formed; for everything else (negative, past the end, beyond int64) the statement only forbids the
+\*     crash: a value (wrap-around) or an error.
+IdxTokens == {"m2l1", "ml1", "ml", "m1", "z", "l1", "l", "2l1", "huge", "minint", "maxint"}
+IndexArgs == { <<n, t, w>> : n \in 1..3, t \in IdxTokens, w \in {"map", "func"} }
+IndexVerdict(a) == IF a[2] \in {"z", "l1"} THEN "deliver" ELSE "either"
+
+\* (c) boundary arguments of the template functions, in a `variables` source ("var": evaluated by the
+\*     constructor) and in a preprocessor mapping ("map": evaluated while shooting).
+\*     arg = <<function, a, b, where>>; randInt(a, b), randString(a) (b = "-").  Never a crash; value or error.
+NumTokens == {"minint", "m1", "z", "p1", "maxint"}
+FuncArgs  == { <<"randInt", a, b, w>> : a \in NumTokens, b \in NumTokens, w \in {"var", "map"} }
+             \cup { <<"randString", a, "-", w>> : a \in NumTokens \ {"maxint"}, w \in {"var", "map"} }
+
+ParamCases ==
+    { [kind |-> "desc", format |-> t, mode |-> "-", np |-> 0, cls |-> "tfunc", nt |-> 0, arg |-> a] :
+        t \in ScenarioTargets, a \in FuncArgs }
+    \cup
+    { [kind |-> "desc", format |-> t, mode |-> "-", np |-> 0, cls |-> "reqlist", nt |-> 0, arg |-> l] :
+        t \in ScenarioTargets, l \in ReqLists }
+    \cup
+    { [kind |-> "desc", format |-> t, mode |-> "-", np |-> 0, cls |-> "index", nt |-> 0, arg |-> a] :
+        t \in ScenarioTargets, a \in IndexArgs }
+
+\* [t, at, v] of any description case
+DescInfo(c) ==
+    CASE c.cls = "reqlist" -> LET v == ReqListVerdict(c.arg) IN
+                              [t |-> ScenarioTargets, at |-> IF v = "deliver" THEN 0 ELSE 1, v |-> v]
+      [] c.cls = "index"   -> LET v == IndexVerdict(c.arg) IN
+                              [t |-> ScenarioTargets, at |-> IF v = "deliver" THEN 0 ELSE 3, v |-> v]
+      [] c.cls = "tfunc"   -> [t |-> ScenarioTargets, at |-> IF c.arg[4] = "var" THEN 1 ELSE 3, v |-> "either"]
+      [] OTHER             -> DescTable[c.cls]
+
+Cases == {c \in AmmoCases : AmmoCaseOK(c)} \cup {c \in DescCases : DescCaseOK(c)} \cup ParamCases
+
+\* membership in Cases, decided structurally (cheap: evaluated on every state and every trace line)
+IsCase(c) ==
+    /\ DOMAIN c = {"kind", "format", "mode", "np", "cls", "nt", "arg"}
+    /\ IF c.kind = "ammo" THEN
+           /\ c.format \in Formats /\ c.cls \in AmmoClasses /\ c.np \in 0..MaxPrefix /\ c.nt \in 0..MaxTrail
+           /\ c.arg = <<>> /\ AmmoCaseOK(c)
+       ELSE /\ c.kind = "desc" /\ c.mode = "-" /\ c.np = 0 /\ c.nt = 0
+            /\ CASE c.cls = "reqlist" -> /\ c.format \in ScenarioTargets
+                                         /\ Len(c.arg) <= MaxReqLen
+                                         /\ \A i \in 1..Len(c.arg) : c.arg[i] \in ReqTokens
+                 [] c.cls = "index"   -> c.format \in ScenarioTargets /\ c.arg \in IndexArgs
+                 [] c.cls = "tfunc"   -> c.format \in ScenarioTargets /\ c.arg \in FuncArgs
+                 [] OTHER             -> c.cls \in DescClasses /\ c.arg = <<>> /\ DescCaseOK(c)
 
 \* ids of the entries of an ammo case, in file order; the item itself is "x" when it is delivered as an
 \* ordinary entry (class none is rendered as one more well-formed entry)
@@ -251,7 +339,7 @@ AmmoSucc(c, s) ==
           : v \in ItemVerdicts(c) }
 
 DescSucc(c, s) ==
-    LET d == DescTable[c.cls] IN
+    LET d == DescInfo(c) IN
     IF s.pos > LastStage(c.format) THEN
         { [e |-> Ev("End", "accepted"), s |-> [s EXCEPT !.res = "accepted"]] }
     ELSE IF s.pos # d.at THEN
@@ -291,7 +379,7 @@ Without(seq, x) == SelectSeq(seq, LAMBDA y : y # x)
 WellFormed(c) == Prefix(c) \o Trail(c)
 
 TypeOK ==
-    /\ cs \in Cases
+    /\ IsCase(cs)
     /\ st.res \in {"run", "accepted", "rejected"}
     /\ st.pos \in 1..(IF cs.kind = "ammo" THEN Len(File(cs)) + 1 ELSE 5)
 
@@ -305,12 +393,12 @@ NoSilentAccept ==
     (st.res = "accepted" /\ cs.kind = "ammo" /\ Verdict(cs.format, cs.cls) = "reject")
         => (cs.mode = "continue" /\ Skippable(cs.format, cs.cls))
 NoSilentAcceptDesc ==
-    (st.res = "accepted" /\ cs.kind = "desc") => DescTable[cs.cls].v # "reject"
+    (st.res = "accepted" /\ cs.kind = "desc") => DescInfo(cs).v # "reject"
 
 \* a well-formed input is never rejected
 NoFalseReject ==
     st.res = "rejected" =>
-        IF cs.kind = "ammo" THEN Verdict(cs.format, cs.cls) # "deliver" ELSE DescTable[cs.cls].v # "deliver"
+        IF cs.kind = "ammo" THEN Verdict(cs.format, cs.cls) # "deliver" ELSE DescInfo(cs).v # "deliver"
 
 \* streaming: when the reader fails at the item, everything before it has been delivered, unchanged
 StreamDeliversPrefix ==
